@@ -6,6 +6,8 @@
 import YashModel.Executor.Steps
 namespace YashModel.Executor
 
+variable {ab : Bool}
+
 /-- States reachable when, between the steps of the executor, anybody holding a waker or the executor may
     wake a task, signal a channel, spawn a new root, clone a registered waker, or take a registered
     waker and wake it. -/
@@ -20,8 +22,8 @@ inductive ReachableX : State → Prop
   | take {s : State} (k i t : Nat) : ReachableX s → (s.waiters k)[i]? = some t →
       ReachableX (wake { s with waiters := upd s.waiters k ((s.waiters k).eraseIdx i) } t)
 
-theorem inv_cloneWaker {r : Option Nat} {s : State} (h : InvX r s) (k t : Nat) (ht : t ∈ s.waiters k) :
-    InvX r { s with waiters := upd s.waiters k (s.waiters k ++ [t]) } := by
+theorem inv_cloneWaker {r : Option Nat} {s : State} (h : InvX ab r s) (k t : Nat) (ht : t ∈ s.waiters k) :
+    InvX ab r { s with waiters := upd s.waiters k (s.waiters k ++ [t]) } := by
   refine ⟨h.nodup, h.qlt, ?_, h.plt, h.kid, h.knodup, h.kdone, h.sync, h.fresh, h.deliv, ?_, h.run,
     h.nobad⟩
   · intro k' x hx
@@ -33,8 +35,8 @@ theorem inv_cloneWaker {r : Option Nat} {s : State} (h : InvX r s) (k t : Nat) (
       · exact h.wlt _ _ ht
     · simp [upd_apply, e] at hx
       exact h.wlt k' x hx
-  · intro t' acts ht' hr hf
-    rcases h.live t' acts ht' hr hf with hq | hb
+  · intro t' acts hab ht' hr hf
+    rcases h.live t' acts hab ht' hr hf with hq | hb
     · exact Or.inl hq
     · right
       rcases hb with ⟨k', rest, e, hm, h0⟩ | hj
@@ -45,11 +47,11 @@ theorem inv_cloneWaker {r : Option Nat} {s : State} (h : InvX r s) (k t : Nat) (
         · simp [upd_apply, e', hm]
       · exact Or.inr hj
 
-theorem inv_takeWaker {s : State} (h : InvX none s) (k i t : Nat) (ht : (s.waiters k)[i]? = some t) :
-    InvX none (wake { s with waiters := upd s.waiters k ((s.waiters k).eraseIdx i) } t) := by
+theorem inv_takeWaker {s : State} (h : InvX ab none s) (k i t : Nat) (ht : (s.waiters k)[i]? = some t) :
+    InvX ab none (wake { s with waiters := upd s.waiters k ((s.waiters k).eraseIdx i) } t) := by
   have htm : t ∈ s.waiters k := List.mem_of_getElem? ht
   have htl : t < s.ntasks := h.wlt k t htm
-  have h1 : InvX none (wake s t) := inv_wake h t htl
+  have h1 : InvX ab none (wake s t) := inv_wake h t htl
   refine ⟨h1.nodup, h1.qlt, ?_, h1.plt, h1.kid, h1.knodup, h1.kdone, h1.sync, h1.fresh, h1.deliv, ?_,
     h1.run, h1.nobad⟩
   · intro k' x hx
@@ -60,11 +62,11 @@ theorem inv_takeWaker {s : State} (h : InvX none s) (k i t : Nat) (ht : (s.waite
       exact h.wlt _ x (List.mem_of_mem_eraseIdx hx')
     · simp only [upd_apply, e, if_false] at hx'
       exact h.wlt k' x hx'
-  · intro t' acts ht' hr hf
+  · intro t' acts hab ht' hr hf
     show t' ∈ enq s.queue t ∨ _
     by_cases et : t' = t
     · subst et; exact Or.inl (mem_enq_self _ _)
-    · rcases h.live t' acts ht' hr hf with hq | hb
+    · rcases h.live t' acts hab ht' hr hf with hq | hb
       · exact Or.inl (mem_enq_of_mem _ _ _ hq)
       · right
         rcases hb with ⟨k', rest, e, hm, h0⟩ | hj
@@ -97,7 +99,7 @@ theorem trace_frame {s s' : State} (h : TraceInv s) (hl : s'.log = s.log) (hn : 
     rw [hl] at he
     exact Nat.lt_of_lt_of_le (h.lt e he) hn
 
-theorem reachableX_inv {s : State} (h : ReachableX s) : InvX none s ∧ TraceInv s := by
+theorem reachableX_inv {s : State} (h : ReachableX s) : InvX false none s ∧ TraceInv s := by
   induction h with
   | init sticky scripts roots => exact ⟨inv_init _ _ _, trace_init _ _ _⟩
   | step _ hs ih => exact ⟨inv_step ih.1 _ hs, trace_step ih.1 ih.2 _ hs⟩
@@ -137,10 +139,10 @@ theorem le_sum_of_mem (l : List Nat) (x : Nat) (h : x ∈ l) : x ≤ l.sum := by
 
 /-- under the invariant, an unfinished task is referenced: by the queue, by a waker registered with a
     channel, or by the waker stored in a relay -/
-theorem refs_pos {s : State} (hi : InvX none s) (nch t : Nat) (acts : Script) (ht : t < s.ntasks)
+theorem refs_pos {s : State} (hi : InvX false none s) (nch t : Nat) (acts : Script) (ht : t < s.ntasks)
     (hf : s.fut t = some acts) (hch : ∀ k, t ∈ s.waiters k → k < nch) : 0 < refs s nch t := by
   unfold refs
-  rcases hi.live t acts ht (by simp) hf with hq | hb
+  rcases hi.live t acts rfl ht (by simp) hf with hq | hb
   · have : 0 < s.queue.count t := List.count_pos_iff.mpr hq
     omega
   · rcases hb with ⟨k, rest, _, hm, _⟩ | ⟨c, cs, rest, _, hk, hr⟩
